@@ -1062,7 +1062,9 @@ pub fn gen_entries<S: Clone>(
     let mut out: Vec<(Label, Vec<S>)> = Vec::new();
     let mut all: Vec<S> = Vec::new();
     for li in 0..labels {
-        let n = r.range(1, max_sigs.max(1) as u64) as usize;
+        // a label without any `sig` line is legal p0f text (all its signatures commented out);
+        // it must not disturb the positions the index records for the labels after it
+        let n = if labels > 1 && r.chance(1, 9) { 0 } else { r.range(1, max_sigs.max(1) as u64) as usize };
         let mut sigs: Vec<S> = Vec::new();
         for _ in 0..n {
             let s = if !all.is_empty() && r.chance(dup_pct, 100) {
